@@ -24,7 +24,7 @@ import lock_stress
 
 RULE = ("cases = (2..8 thread programs of nested API calls / callbacks of the 5 macro kinds, schedule) from "
         "the corpus, a seeded generator (uniform / bursty / round-robin / one-thread-first / short schedules) "
-        "and the exhaustive interleavings of pairs from a catalogue of 9 small programs; each is run on the "
+        "and the interleavings of pairs from a catalogue of 9 small programs (all of them up to 40 (quick) / 3000 (thorough) per pair, else half lexicographic half random); each is run on the "
         "real lock code and on the extracted model and compared step by step; non-trivial = at least 2 "
         "threads, at least one callback macro in a program, and the implementation's trace contains a "
         "blocked lock attempt or a state with in_callback >= 1; distinct = distinct case line")
@@ -115,18 +115,31 @@ def main(run):
     # ---- (ii)+(iii) translator
     srcs = vlib.lib_sources(lib["cfg"])
     try:
-        c, diag = regen_lock.translate(vlib.REPO, lib["cfg"], srcs, compiled, reports)
+        with vlib.Lock("accfg"):
+            ac_dir = regen_lock.ensure_autoconf_cfg(vlib.REPO, vlib.BUILD)
+        c, diag = regen_lock.translate(vlib.REPO, lib["cfg"], srcs, compiled, reports, ac_cfg=ac_dir)
     except regen_lock.TranslatorError as e:
         run.violation("translator cannot transcribe the lock macros: %s" % e, str(e), tag="translator",
                       no_input=True)
         return
-    diffs = regen_lock.differences(c)
+    rc_cfg = diag["rc"]
+    ac_cfg = diag["ac"]
+    diffs = regen_lock.differences(c) + regen_lock.differences(rc_cfg, "[COAP_THREAD_RECURSIVE_CHECK variant] ") + \
+        regen_lock.differences(ac_cfg, "[autoconf configuration] ")
+    if (diag["static"]["compiled"], diag["static"]["reports"]) != (compiled, reports):
+        diffs.append("the built library (lock functions present=%s, coap_threadsafe_is_supported()=%s) differs from "
+                     "what the preprocessor says for the same configuration (%s, %s)"
+                     % (compiled, reports, diag["static"]["compiled"], diag["static"]["reports"]))
     run.cov["translator"] = {
         "compiled": compiled, "reports": reports, "macro_paths": diag["macros"], "wait": diag["wait"],
         "api_functions": diag["api"]["functions"], "api_by_verdict": diag["api"]["by_verdict"],
         "callback_sites": diag["callbacks"]["sites"], "callback_by_verdict": diag["callbacks"]["by_verdict"],
-        "differences": diffs, "driver_sees_macro": int(m.group(2))}
-    gen_text = regen_lock.render(c)
+        "differences": diffs, "driver_sees_macro": int(m.group(2)),
+        "recursive_check_variant": {k: rc_cfg[k] for k in ("compiled", "reports", "api", "keep", "keepret",
+                                                             "rel", "relret", "wait")},
+        "autoconf_configuration": {k: ac_cfg[k] for k in ("compiled", "reports", "api", "keep", "keepret", "rel",
+                                                          "relret", "wait", "_values")}}
+    gen_text = regen_lock.render(c, rc_cfg, ac_cfg)
     install_gen(gen_text)
     # ---- proof
     run.prove()
@@ -141,14 +154,34 @@ def main(run):
         lines.append(ln)
         kinds.append("gen-" + style)
     cat = gen_lock.CATALOGUE
-    lim = 40 if run.tier == "quick" else None
+    lim = 40 if run.tier == "quick" else 3000
     for a in cat:
         for b in cat:
-            for s in gen_lock.interleavings(a, b, limit=lim):
+            for s in gen_lock.interleavings(a, b, limit=lim, rng=r):
                 lines.append("lk 2 %s %s %s" % (a, b, s))
                 kinds.append("interleave")
     om, oc, crashes = tie.run_both(model, drv, lines, timeout=600)
     run.cov["driver_crashes"] = len(crashes)
+    # the COAP_THREAD_RECURSIVE_CHECK variant of the lock functions and macros (the autoconf default),
+    # compiled into a second driver: same cases, same model
+    drv_rc = vlib.build_driver("h_lock_rc", ["h_lock.c"], "base", wraps=WRAPS,
+                               extra=["-DCOAP_THREAD_RECURSIVE_CHECK=1", "-DLK_STANDALONE_RC"])
+    orc, crashes_rc = vlib.run_lines_robust(drv_rc, lines, timeout=600)
+    run.cov["driver_crashes_rc"] = len(crashes_rc)
+    nbad_rc = 0
+    for i, ln in enumerate(lines):
+        if orc[i] != om[i]:
+            nbad_rc += 1
+            em = re.search(r" end=(\d) done=(\d+)$", orc[i])
+            if nbad_rc <= 2:
+                concrete = not em or em.group(1) != "0"
+                run.violation("COAP_THREAD_RECURSIVE_CHECK variant of the lock code %s (%s)" %
+                              ("violates the lock protocol" if concrete else "disagrees with the model step by step",
+                               kinds[i]),
+                              "case: %s\nimpl (RECURSIVE_CHECK build of src/coap_threadsafe.c + macros): %s\n"
+                              "model: %s\nreplay: echo '<case>' | .build/obj/base/h_lock_rc\n" % (ln, orc[i], om[i]),
+                              tag="rc%d" % nbad_rc, no_input=not concrete)
+    run.cov["disagreements_rc"] = nbad_rc
     nbad = nor = 0
     maxincb = 0
     for i, ln in enumerate(lines):
